@@ -347,14 +347,16 @@ theorem blockSplitCode_roundtrip (s : BSplit) (h : SplitOK s) (w : Writer) :
     have tio : ∀ k, 1 ≤ k → k < s.types.length → SymIO td tb tc (tcode s.types k) := by
       intro k hk1 hk
       exact sc1 _ (tcode_lt s h k hk) ((dt.mem _).mpr (List.mem_map.mpr ⟨k - 1, List.mem_range.mpr (by omega),
-        by congr 1; omega⟩))
+        by rw [show 1 + (k - 1) = k by omega]⟩))
     obtain ⟨l1, l2⟩ := h.len 0 (by omega)
     obtain ⟨lbits, es, er⟩ := storeBlockSwitch_ok
       ({ BSCode.init with typeDepths := td, typeBits := tb, lengthDepths := ld, lengthBits := lb }) cc
       (s.lengths.getD 0 0) (s.types.getD 0 0) true [] l1 l2 (lio 0 (by omega)) (fun w => by simp)
     rw [es]
-    refine ⟨vb ++ (cb1 ++ (cb2 ++ lbits)), _, ⟨s.numTypes, tc, cc, 0, s.lengths.getD 0 0, 1⟩, ?_, ?_, ?_, fun _ => rfl⟩
-    · rw [ec2, ec1]; simp [List.append_assoc]
+    refine ⟨vb ++ (cb1 ++ (cb2 ++ lbits)), ⟨s.types.getD 0 0, 1, td, tb, ld, lb⟩,
+      ⟨s.numTypes, tc, cc, 0, s.lengths.getD 0 0, 1⟩, ?_, ?_, ?_, fun _ => rfl⟩
+    · have : w2 ++ [] ++ lbits = w ++ (vb ++ (cb1 ++ (cb2 ++ lbits))) := by rw [ec2, ec1]; simp
+      rw [this]; rfl
     · intro rest
       unfold readCatHeader
       rw [List.append_assoc, hv2]
@@ -368,6 +370,123 @@ theorem blockSplitCode_roundtrip (s : BSplit) (h : SplitOK s) (w : Writer) :
       simp only
       rw [er]
     · exact ⟨by omega, rfl, h.t0.symm, fun _ => by unfold secondAt; simp,
-        fun _ => ⟨rfl, by unfold secondAt; simp; rfl⟩, tio, fun k _ hk => lio k hk⟩
+        fun _ => ⟨rfl, by unfold secondAt; simp⟩, tio, fun k _ hk => lio k hk⟩
+
+/-! ### block switches -/
+
+/-- the reader's decoding of a block type code inverts `NextBlockTypeCode` -/
+theorem tcode_decode (last second t nbl : Nat) (hl : last < nbl) (ht : t < nbl) (hn : nbl ≤ 256) :
+    (if (nextBlockTypeCode last second t).1 = 0 then second
+      else if (nextBlockTypeCode last second t).1 = 1 then (if last + 1 ≥ nbl then 0 else last + 1)
+      else (nextBlockTypeCode last second t).1 - 2) = t := by
+  have hm : (last + 1) % two64 = last + 1 := Nat.mod_eq_of_lt (by unfold two64; omega)
+  unfold nextBlockTypeCode
+  simp only [hm]
+  by_cases h1 : t = last + 1
+  · rw [if_pos h1]; simp only [Nat.one_ne_zero, if_false, if_true]; rw [if_neg (by omega)]; exact h1.symm
+  · rw [if_neg h1]
+    by_cases h2 : t = second
+    · rw [if_pos h2]; simp; exact h2.symm
+    · rw [if_neg h2]; simp
+
+theorem CatInv.two {s : BSplit} {c : BSCode} {cat : Cat} {j : Nat} (h : SplitOK s) (_ : CatInv s c cat j)
+    (hj : j + 1 < s.types.length) : 2 ≤ s.numTypes := by
+  rcases Nat.lt_or_ge s.numTypes 2 with h1 | h1
+  · have := h.single (by have := h.nt1; omega); omega
+  · exact h1
+
+/-- the reader's category after the switch to a block of type `t` and length `l` -/
+def Cat.switched (cat : Cat) (t l : Nat) : Cat := { cat with btype := t, count := l - 1, second := cat.btype }
+
+/-- the writer's calculator after the switch to type `t` -/
+def BSCode.switched (c : BSCode) (t : Nat) : BSCode := { c with last := t, secondLast := c.last }
+
+/-- **one block switch**: `StoreBlockSwitch` for block `j + 1` against the switch branch of `Cat.next` -/
+theorem switch_step (s : BSplit) (h : SplitOK s) (c : BSCode) (cat : Cat) (j : Nat) (hi : CatInv s c cat j)
+    (hj : j + 1 < s.types.length) (h0 : cat.count = 0) :
+    ∃ bits, (∀ w, storeBlockSwitch c (s.lengths.getD (j + 1) 0) (s.types.getD (j + 1) 0) false w
+        = .ok (c.switched (s.types.getD (j + 1) 0), w ++ bits)) ∧
+      (∀ rest, cat.next (bits ++ rest)
+        = some (cat.switched (s.types.getD (j + 1) 0) (s.lengths.getD (j + 1) 0), rest)) ∧
+      CatInv s (c.switched (s.types.getD (j + 1) 0))
+        (cat.switched (s.types.getD (j + 1) 0) (s.lengths.getD (j + 1) 0)) (j + 1) := by
+  have h2 := hi.two h hj
+  obtain ⟨hl1, hl2⟩ := hi.last h2
+  obtain ⟨l1, l2⟩ := h.len (j + 1) hj
+  obtain ⟨tb, ts, tr⟩ := hi.tio (j + 1) (by omega) hj
+  have htc : tcode s.types (j + 1) = (nextBlockTypeCode c.last c.secondLast (s.types.getD (j + 1) 0)).1 := by
+    unfold tcode; rw [hl1, hl2]; rfl
+  obtain ⟨lbits, es, er⟩ := storeBlockSwitch_ok c cat.countCode (s.lengths.getD (j + 1) 0) (s.types.getD (j + 1) 0)
+    false tb l1 l2 (hi.lio (j + 1) (by omega) hj) (fun w => by
+      simp only [Bool.false_eq_true, if_false]; rw [← htc]; exact ts w)
+  have hdec := tcode_decode c.last c.secondLast (s.types.getD (j + 1) 0) s.numTypes
+    (by rw [hl1]; exact h.tlt j hi.jlt) (h.tlt _ hj) h.nt
+  refine ⟨tb ++ lbits, ?_, ?_, ?_⟩
+  · intro w; rw [es, List.append_assoc]; rfl
+  · intro rest
+    unfold Cat.next
+    rw [if_neg (by rw [hi.nbl]; omega), if_neg (by rw [h0]; simp), List.append_assoc, tr]
+    simp only
+    rw [htc, hi.second h2, hi.btype, hi.nbl, ← hl1, ← hl2, hdec, if_neg (by have := h.tlt _ hj; omega), er]
+    simp only
+    rw [if_neg (by omega)]
+    rw [show cat.switched (s.types.getD (j + 1) 0) (s.lengths.getD (j + 1) 0) = ⟨cat.nbl, cat.typeCode, cat.countCode,
+      s.types.getD (j + 1) 0, s.lengths.getD (j + 1) 0 - 1, cat.btype⟩ from rfl, hi.nbl, hi.btype, hl1]
+  · exact ⟨hj, hi.nbl, rfl, fun _ => by
+        show cat.btype = secondAt s.types (j + 1 + 1)
+        unfold secondAt; rw [if_neg (by omega), hi.btype]; rfl,
+      fun _ => ⟨rfl, by
+        show c.last = secondAt s.types (j + 1 + 1)
+        unfold secondAt; rw [if_neg (by omega), hl1]; rfl⟩, hi.tio, hi.lio⟩
+
+theorem CatInv.setCount {s : BSplit} {c : BSCode} {cat : Cat} {j : Nat} (hi : CatInv s c cat j) (n : Nat) :
+    CatInv s c { cat with count := n } j :=
+  ⟨hi.jlt, hi.nbl, hi.btype, hi.second, hi.last, hi.tio, hi.lio⟩
+
+theorem zip_drop (s : BSplit) (h : SplitOK s) (k : Nat) (hk : k < s.types.length) :
+    (s.types.zip s.lengths).drop k = (s.types.getD k 0, s.lengths.getD k 0) :: (s.types.zip s.lengths).drop (k + 1) := by
+  have hl : k < (s.types.zip s.lengths).length := by rw [List.length_zip, h.nl]; omega
+  rw [List.drop_eq_getElem_cons hl, List.getElem_zip]
+  congr 2
+  · rw [List.getD_eq_getElem?_getD, List.getElem?_eq_getElem hk]; rfl
+  · rw [List.getD_eq_getElem?_getD, List.getElem?_eq_getElem (by rw [h.nl]; exact hk)]; rfl
+
+/-- all block switches after block `j`, written by `StoreBlockSwitch` and read by `Cat.next` -/
+theorem switches_roundtrip (s : BSplit) (h : SplitOK s) : ∀ (n j : Nat) (c : BSCode) (cat : Cat)
+    (acc : List (Nat × Nat)) (w : Writer), CatInv s c cat j → j + 1 + n = s.types.length →
+    ∃ bits c', ((s.types.zip s.lengths).drop (j + 1)).foldlM (fun (cw : BSCode × Writer) tl =>
+        storeBlockSwitch cw.1 tl.2 tl.1 false cw.2) (c, w) = .ok (c', w ++ bits) ∧
+      ∀ rest, readSwitches n cat (bits ++ rest) acc
+        = some (acc.reverse ++ (s.types.zip s.lengths).drop (j + 1), rest) := by
+  intro n
+  induction n with
+  | zero =>
+    intro j c cat acc w hi hn
+    have : (s.types.zip s.lengths).drop (j + 1) = [] := by
+      apply List.drop_eq_nil_of_le; rw [List.length_zip, h.nl]; omega
+    rw [this]
+    exact ⟨[], c, by simp, fun rest => by simp [readSwitches]⟩
+  | succ n ih =>
+    intro j c cat acc w hi hn
+    have hj : j + 1 < s.types.length := by omega
+    obtain ⟨l1, l2⟩ := h.len (j + 1) hj
+    obtain ⟨b1, e1, r1, i1⟩ := switch_step s h c { cat with count := 0 } j (hi.setCount 0) hj rfl
+    obtain ⟨b2, c', e2, r2⟩ := ih (j + 1) _ _ ((s.types.getD (j + 1) 0, s.lengths.getD (j + 1) 0) :: acc) (w ++ b1) i1
+      (by omega)
+    refine ⟨b1 ++ b2, c', ?_, ?_⟩
+    · rw [zip_drop s h (j + 1) hj, List.foldlM_cons]
+      simp only
+      rw [e1, Out.bind_ok, e2, List.append_assoc]
+    · intro rest
+      unfold readSwitches
+      rw [List.append_assoc, r1]
+      simp only
+      have hc : (Cat.switched { cat with count := 0 } (s.types.getD (j + 1) 0) (s.lengths.getD (j + 1) 0)).count + 1
+          = s.lengths.getD (j + 1) 0 := by
+        show s.lengths.getD (j + 1) 0 - 1 + 1 = _; omega
+      have hb : (Cat.switched { cat with count := 0 } (s.types.getD (j + 1) 0) (s.lengths.getD (j + 1) 0)).btype
+          = s.types.getD (j + 1) 0 := rfl
+      rw [hc, hb, r2, zip_drop s h (j + 1) hj]
+      simp
 
 end BV.MetaBlock
